@@ -11,8 +11,8 @@ package main
 
 import (
 	"bytes"
-	"crypto/sha256"
 	"crypto/ecdsa"
+	"crypto/sha256"
 	"encoding/hex"
 	"encoding/json"
 	"flag"
@@ -105,7 +105,7 @@ type LBS struct {
 	ZeroTotal bool   `json:"zero_total,omitempty"` // statistic left empty
 }
 type ProofS struct {
-	Kind  int    `json:"kind"` // 0 honest VRF proof, 1 truncated, 2 random bytes of the right length, 3 empty, 4-11 scalar out of range, 12-19 built by the key's OWNER over a non-canonical encoding (see forgedVariant)
+	Kind  int    `json:"kind"`          // 0 honest VRF proof, 1 truncated, 2 random bytes of the right length, 3 empty, 4-11 scalar out of range, 12-19 built by the key's OWNER over a non-canonical encoding (see forgedVariant)
 	Tag   int    `json:"tag,omitempty"` // 12: the leading byte of the point encoding; 13-19: the variant's argument
 	Key   int    `json:"key"`
 	Seed  int    `json:"seed"`
@@ -1305,13 +1305,19 @@ func loadCorpusH(dir string) []HCase {
 
 // oracle returns the `what` keys of the violations an accepted case shows.
 func oracle(c *Case, b *built) []string {
+	ws := oracleAccept(c, b)
+	if anyCredentialDiffers(c) {
+		ws = append([]string{whatVrfDiffers}, ws...)
+	}
+	return ws
+}
+
+// oracleAccept: the acceptance clause of the property
+func oracleAccept(c *Case, b *built) []string {
 	if c.Verdict == 11 {
 		// a crash of the verifier is an outcome of its own (recorded in the distribution as PANIC
 		// and compared with the model's EPanic); it is not an acceptance, so not a C01 violation
 		return nil
-	}
-	if anyCredentialDiffers(c) {
-		return []string{whatVrfDiffers}
 	}
 	if c.Verdict != 0 {
 		return nil
@@ -1481,6 +1487,40 @@ func trimToQuorum(vs []VoteS, q uint64, mode int) []VoteS {
 		}
 	}
 	return vs
+}
+
+// grindProof: the owner of key k looks for the leading byte of its VRF point's encoding that gives
+// the largest seat count (256 encodings of the same point, each with its own sha256)
+func grindProof(key int, stake, thr, total uint64, seed int, step, index uint32) (ProofS, int64) {
+	base := forgeProof(keys[key].sk, msgOf(seed, step, index), "forge_nonce", 0)
+	d := append([]byte{}, base[64:129]...)
+	best, bestJ := 6, int64(-1)
+	for tag := 0; tag < 256; tag++ {
+		if tag == 4 {
+			continue
+		}
+		d[0] = byte(tag)
+		j, pan := seatsOf(common.Hash(sha256.Sum256(d)), stake, thr, total)
+		if !pan && j > bestJ {
+			best, bestJ = tag, j
+		}
+	}
+	return ProofS{Kind: 12, Tag: best, Key: key, Seed: seed, Role: step, Index: index}, bestJ
+}
+
+// grindVotes: every entitled member votes with its best-draw encoding and claims that weight
+func grindVotes(lb LBS, total uint64, seed int, step, index uint32, thr uint64) []VoteS {
+	var out []VoteS
+	for i, v := range lb.Vals {
+		if v.MainBad || v.BlsBad || !isMember(v) {
+			continue
+		}
+		p, j := grindProof(v.Key, v.Stake, thr, total, seed, step, index)
+		if j > 0 {
+			out = append(out, VoteS{Idx: uint32(i), Votes: uint32(j), Proof: p})
+		}
+	}
+	return out
 }
 
 // exactSubset returns a sub-list of vs (order kept) whose weight is exactly
@@ -1877,6 +1917,18 @@ func (g *gen) one(res *vf.Result) Case {
 	c.H.Val.Agg = aggOf(c.LB, c.H.Val.Votes, cs.Round, index)
 	res.Count("base:precommits_" + mode)
 	attacked := false
+	if r.Chance(9) {
+		// a coalition (about half of the entitled validators, each really signing) whose members each
+		// present the encoding of their VRF point that gives them the largest draw
+		all := grindVotes(c.LB, total, c.SeedH.Seed, stepPrecommit, index, c.CP.VT)
+		g.shuffleVotes(all)
+		keep := len(all)/2 + r.Intn(len(all)/2+1)
+		c.H.Val.Votes = all[:keep]
+		c.H.Val.Agg = aggOf(c.LB, c.H.Val.Votes, cs.Round, index)
+		res.Count("attack:coalition_grinds_the_point_encoding")
+		attacked = true
+		dropped = nil
+	}
 	if dropped != nil && r.Chance(75) {
 		g.readd(&c, c.LB, &c.H.Val, *dropped, qv, c.SeedH.Seed, res)
 		attacked = true
@@ -2035,12 +2087,11 @@ func (g *gen) forgeProposer(c *Case, total uint64, res *vf.Result) {
 	r := g.r
 	cs := &c.H.Cons
 	tag := ""
-	k := r.Intn(15)
-	if k >= 11 {
+	k := r.Intn(17)
+	if k >= 11 && k < 15 {
 		k = 2 + (k-11)%2 // priority forgeries carry double weight
-	}
-	if k == 14 {
-		k = 1
+	} else if k >= 15 {
+		k = 15
 	}
 	switch k {
 	case 0: // a validator that won no seat proposes
@@ -2083,6 +2134,16 @@ func (g *gen) forgeProposer(c *Case, total uint64, res *vf.Result) {
 	case 9: // signed by another key than the credential's
 		cs.Signer = r.Intn(nKeys)
 		tag = "proposer_other_signer"
+	case 15: // the proposer grinds the encoding of its VRF point until the credential wins seats
+		for _, v := range c.LB.Vals {
+			if !v.MainBad && v.Key == cs.Signer {
+				p, j := grindProof(v.Key, v.Stake, c.CP.PT, total, c.SeedH.Seed, stepProposal, cs.RoundIndex)
+				if j > 0 {
+					cs.Proof, cs.PrioJ, cs.SubUsers = p, j, uint32(j)
+					tag = "proposer_grinds_the_point_encoding"
+				}
+			}
+		}
 	case 10: // a house / offline member proposes with a credential computed for it
 		for _, v := range c.LB.Vals {
 			if v.MainBad || isMember(v) {
